@@ -2753,11 +2753,17 @@ class Cond(Generic[X, R], GFI[X, R]):
         (check, *rest_args) = args
         new_tr, w, discard = self.callee.update(tr.trs[0], x, *rest_args, **kwargs)
         new_tr_, w_, discard_ = self.callee_.update(tr.trs[1], x, *rest_args, **kwargs)
-        # Merge discarded values
-        merged_discard, _ = self.callee.merge(discard, discard_)
+        # The discard holds the values that were visible in the old trace,
+        # i.e. those of the branch selected by the *old* condition.
+        merged_discard, _ = self.callee.merge(discard, discard_, tr.check)
+        # Each branch weight is relative to that branch's own old sub-trace;
+        # when the condition changes, re-base it on the old visible score.
+        switch_correction = tr.get_score() - jnp.where(
+            check, tr.trs[0].get_score(), tr.trs[1].get_score()
+        )
         return (
             CondTr(self, check, [new_tr, new_tr_]),
-            jnp.where(check, w, w_),
+            jnp.where(check, w, w_) + switch_correction,
             merged_discard,
         )
 
